@@ -3,6 +3,7 @@ from rules.common import *
 from spec import tables
 
 LEVEL = 'proof'
+FIXTURES = ['F3', 'F8']
 TRAIT = 'v2::builder::WriteToHeader'
 WRITER = 'v2::builder::Writer'
 LIMIT = tables.U16_MAX + tables.V2_FIXED     # the writer refuses to grow once it holds more than this
